@@ -18,10 +18,11 @@ class C08(Prop):
             'string payloads at declared length -1/0/+1; non-trivial = buffer of at least 1 byte; distinct by (buffer, result)')
 
     def corr_lines(self, tier, rng):
-        return ['SD ' + gen.hexs(b) for b in gen.head_buffers(tier, rng)]
+        bufs = gen.head_buffers(tier, rng)
+        return ['SD ' + gen.hexs(b) for b in bufs] + ['SDE ' + gen.hexs(b) for b in bufs[::3]]
 
     def nontrivial(self, line, out):
-        return line != 'SD -'
+        return line not in ('SD -', 'SDE -')
 
     # ---------------------------------------------------------------- oracle
     def judge(self, buf, c_out, spec_out):
@@ -90,6 +91,18 @@ class C08(Prop):
                 if co2 != co:
                     fails.append({'input': 'SD ' + gen.hexs(b2), 'expected': co + '  (as for ' + gen.hexs(b) + ')', 'observed': co2,
                                   'why': 'FINISHED result depends on bytes beyond read'})
+        # the do-nothing callback table of the library itself: same status / read / required, no allocation
+        el = ['SDE ' + gen.hexs(b) for b in bufs[::3]]
+        eo, rc3, err3 = ctx.run_c(el)
+        if rc3 != 0:
+            i, l, e = core.first_crash_line(ctx.harness, el)
+            return fails + [{'input': l, 'expected': 'a result', 'observed': 'implementation aborted with cbor_empty_callbacks', 'why': e[-800:]}]
+        for b, co, eo1 in zip(bufs[::3], c_out[::3], eo):
+            ctx.count('SDE ' + gen.hexs(b), eo1); ctx.bump('empty_callbacks')
+            cw = co.split(' ', 3); ew = eo1.split()
+            if ew[:3] != cw[:3] or ew[-1] != 'ok=1':
+                fails.append({'input': 'SDE ' + gen.hexs(b), 'expected': ' '.join(cw[:3]) + ' ok=1 (as with recording callbacks)', 'observed': eo1,
+                              'why': 'with cbor_empty_callbacks the result struct differs or memory was requested'})
         ctx.exhaustive['initial_byte'] = True
         ctx.exhaustive['one_byte_arguments'] = True
         ctx.exhaustive['two_byte_arguments'] = (tier == 'thorough')
@@ -98,6 +111,10 @@ class C08(Prop):
     def replay(self, ctx, rp):
         l = rp['failure']['input']
         b = bytes.fromhex(l.split()[1]) if l.split()[1] != '-' else b''
+        if l.startswith('SDE '):
+            eo, rc, _ = ctx.run_c([l]); co, _, _ = ctx.run_c(['SD ' + l.split()[1]])
+            bad = rc != 0 or eo[0].split()[:3] != co[0].split(' ', 3)[:3] or eo[0].split()[-1] != 'ok=1'
+            return [dict(rp['failure'], observed=eo[0] if eo else 'abort')] if bad else []
         co, rc, err = ctx.run_c([l]); so, _, _ = ctx.run_spec(['HEAD ' + gen.hexs(b)])
         if rc != 0: return [dict(rp['failure'], observed='implementation aborted')]
         if 'depends on bytes beyond read' in rp['failure'].get('why', ''):
